@@ -357,8 +357,13 @@ def transfer_details(ctx: Ctx, rule: str) -> None:
         fn = ctx.repo.func(fref)
         locks = _locks(fn.node)
         tdefs = [ast.unparse(s_.value) for s_ in ast.walk(fn.node) if isinstance(s_, ast.Assign) and ast.unparse(s_.targets[0]) == "update_timeout"]
-        ok = len(locks) == 1 and len(locks[0].items[0].context_expr.args) == 2 and ast.unparse(locks[0].items[0].context_expr.args[1]) == "update_timeout" \
-            and tdefs == ["params.get_numeric('update_pool_timeout', 300)"]
+        # the timeout argument of image_lock, positional or by name, through the local or inline
+        targ = None
+        if len(locks) == 1:
+            ce = locks[0].items[0].context_expr
+            targ = ce.args[1] if len(ce.args) == 2 else next((k.value for k in ce.keywords if k.arg == "timeout"), None)
+        ttext = ast.unparse(targ) if targ is not None else None
+        ok = len(locks) == 1 and ((ttext == "update_timeout" and tdefs == ["params.get_numeric('update_pool_timeout', 300)"]) or ttext == "params.get_numeric('update_pool_timeout', 300)")
         ctx.record(rule + "t", "PROV", fref, "the lock wait is the configured update_pool_timeout (default 300 s)", ok, {"update_timeout": tdefs},
                    "" if ok else f"{name} waits for the lock with something else than update_pool_timeout (default 300)")
     fn = ctx.repo.func(f"{OPS}.delete_local")
